@@ -155,6 +155,23 @@ func (g *DGen) value(t *ast.Type, hasLocDefault bool, depth int) GT {
 		g.vars = append(g.vars, vd)
 		return leaf("var", name)
 	}
+	if def := g.S.Types[t.NamedType]; !g.inFrag && t.Elem == nil && def != nil && def.Kind == ast.Scalar && !def.BuiltIn && len(g.vars) > 0 && g.R.Intn(2) == 0 {
+		// a custom scalar takes any literal: put variables the operation already declares
+		// (and uses in a typed position) inside lists and objects, where no type guides the walk
+		pick := func() GT {
+			return leaf("var", g.vars[g.R.Intn(len(g.vars))].K[0].V)
+		}
+		switch g.R.Intn(4) {
+		case 0:
+			return GT{T: "listv", K: []GT{pick()}}
+		case 1:
+			return GT{T: "listv", K: []GT{leaf("int", "1"), {T: "listv", K: []GT{pick(), {T: "listv", K: []GT{pick()}}}}}}
+		case 2:
+			return GT{T: "obj", K: []GT{{T: "objfield", K: []GT{leaf("name", "ids"), {T: "listv", K: []GT{pick()}}}}}}
+		default:
+			return GT{T: "obj", K: []GT{{T: "objfield", K: []GT{leaf("name", "a"), pick()}}, {T: "objfield", K: []GT{leaf("name", "b"), {T: "obj", K: []GT{{T: "objfield", K: []GT{leaf("name", "c"), {T: "listv", K: []GT{pick(), leaf("null", "null")}}}}}}}}}}
+		}
+	}
 	v := g.literal(t, depth)
 	return v
 }
